@@ -1,8 +1,9 @@
 CONSTANTS
-  NFonts = 2
-  Family = "full"
-  BugSet = {"none"}
+  NFontsSet = {2, 3}
+  Family = "thorough"
+  BugSet = {"none", "no-rename", "no-fresh-loop", "later-wins", "dup-reversed", "maxp-first", "ctx-not-offset", "feature-first-only", "compact-off-by-one"}
   IdfSet = {FALSE, TRUE}
+  ShapeK = 2
   IgnSet = {{3}}
 INIT Init
 NEXT Next
@@ -13,8 +14,9 @@ INVARIANT Inv_Totals
 INVARIANT Inv_DuplicateRule
 INVARIANT Inv_DisjointShaping
 INVARIANT Inv_OrderRule
-INVARIANT Inv_MergeAll
 INVARIANT Inv_IdentifyOnlySame
+INVARIANT NegReport
 INVARIANT Witness
 INVARIANT Witness2
+INVARIANT Inv_MergeAll
 CHECK_DEADLOCK FALSE
